@@ -106,7 +106,9 @@ where
                 self.buf_offset = 0;
                 self.chunk_index += 1;
                 self.state = IoChunkReaderState::Seek;
-                let chunk = self.buf.clone();
+                // The buffer may still hold (more) data of the previous chunk if this one is empty.
+                let mut chunk = self.buf.clone();
+                chunk.truncate(read_at.size);
                 return Poll::Ready(Some(Ok(chunk.freeze())));
             }
             match self.state {
